@@ -115,6 +115,15 @@ pub async fn backup(
 
     // Create the new band only after finding the basis band!
     let band = Band::create(archive).await?;
+    // A garbage collection may have taken its lock since we looked at the top of this
+    // function. If it did so before our band existed it will not see the band when it
+    // re-checks just before deleting, so it is up to us to see its lock: look again now
+    // that the band exists, and before listing the blocks that we will rely on.
+    // (If the lock appears only after this point, the collector's re-check finds our band
+    // and it gives up without deleting anything.)
+    if gc_lock::GarbageCollectionLock::lock_file_present(archive).await? {
+        return Err(Error::GarbageCollectionLockHeld);
+    }
     let index_writer = band.index_writer(monitor.clone());
     let block_dir = archive.block_dir().await?;
     let mut writer = BackupWriter {
